@@ -9,6 +9,7 @@ import (
 	"net"
 	"os"
 	"syscall"
+	"time"
 )
 
 // Outcome is the uniform classification of what came back for one request.
@@ -66,6 +67,12 @@ type Result struct {
 
 	// Err is the textual form of the client-side error, if any.
 	Err string `json:"err,omitempty"`
+
+	// SendElapsed is, for QUIC, the time from just before the stream was
+	// opened until all request bytes and the FIN had been handed to the
+	// transport.  The DoQ server gives a stream two seconds to deliver its
+	// query; a caller can use this to recognise a client-side stall.
+	SendElapsed time.Duration `json:"send_elapsed_ns,omitempty"`
 }
 
 // One returns the single response, or nil if there is not exactly one.
